@@ -201,13 +201,10 @@ Definition in_window (n limit : N) (ch : list gentry) : list gentry := in_window
 Definition cons_has (o : ostate) (k : height) : bool :=
   let ck := cons_key k in existsb (fun e => bytes_eqb (fst e) ck) (o_cons o).
 
-(** true |a - b| < a / 256 and b >= 5000 and b <= 2^63 - 1, evaluated with the code's casts only when the
-    parent's limit does not fit an int64 (only a creation-time header can carry such a limit) *)
+(** |a - b| < a / 256, b >= 5000, b <= 2^63 - 1, used <= b in ordinary arithmetic *)
 Definition gas_ok (parent_limit limit used : N) : bool :=
   (limit <=? 9223372036854775807) && (used <=? limit) && (minGasLimit <=? limit)
-  && (if parent_limit <? two63
-      then (if limit <=? parent_limit then parent_limit - limit else limit - parent_limit) <? parent_limit / 256
-      else negb (gas_bound_bad parent_limit limit)).
+  && ((if limit <=? parent_limit then parent_limit - limit else limit - parent_limit) <? parent_limit / 256).
 
 (** ** The property, conjunct by conjunct, as Boolean functions of plain data (what the monitor evaluates on
     the observed state; Proofs/BscMon.v shows that every step the model accepts passes each of them) *)
